@@ -95,11 +95,11 @@ Section Admission.
       (match parsed f with Some m => evid_of m | None => [] end).
 
   (** serveRead on one frame *)
-  Definition admit (f : wsframe) : verdict := gate (frame_outcomes 0 f).
+  Definition admit_frame (f : wsframe) : verdict := gate (frame_outcomes 0 f).
 
   (** what is sent on [recv] for the frame, if anything: [sendCtx(ctx, recv, msg)] *)
   Definition forwarded (f : wsframe) : option cmsg :=
-    match admit f with
+    match admit_frame f with
     | Forward _ => parsed f
     | Reject _ => None
     end.
@@ -159,33 +159,41 @@ Definition toy_H (s : str) : str :=
   let a := fold_left (fun acc b => ((acc * 31 + b + 1) mod 256)%N) s 7%N in
   List.map (fun i => ((a + 7 * N.of_nat i) mod 256)%N) (seq 0 32).
 
-Definition toy_PK (pk : str) : bool := Nat.eqb (length pk) 32.
+(** "ParsePubKey": 32 bytes, and not the all-ones key *)
+Definition toy_PK (pk : str) : bool := Nat.eqb (length pk) 32 && negb (forallb (N.eqb 255) pk).
 Definition toy_SG (sg : str) : bool := Nat.eqb (length sg) 64.
 (** a toy "signature scheme": the signature of message m under key pk is m ++ pk *)
 Definition toy_V (pk m sg : str) : bool := str_eqb sg (m ++ pk).
 
-Definition ex_pk : str := repeat 97%N 64.          (* "aa…a": the key bytes are 32 times 0xaa *)
+Definition ex_pk : str := repeat 97%N 64.          (* "aa...a": the key bytes are 32 times 0xaa *)
 Definition ex_pk_bytes : str := repeat 170%N 32.
+Definition ex_pk_bad : str := repeat 102%N 64.      (* "ff...f": well-formed text, refused by toy_PK *)
 
-(** the event with the given content, id and sig computed with the toy oracles *)
-Definition ex_base (content : str) : event :=
-  mkEvent [] ex_pk 1700000000 1 [[gtxt "t"; gtxt "x"]] content [].
-Definition ex_id_bytes (content : str) : str := toy_H (canonical (ex_base content)).
+(** the event with the given pubkey and content; id and sig are computed with
+    the toy oracles (neither is covered by the serialization) *)
+Definition ex_base (pk content : str) : event :=
+  mkEvent [] pk 1700000000 1 [[gtxt "t"; gtxt "x"]] content [].
+Definition ex_id_bytes (pk content : str) : str := toy_H (canonical (ex_base pk content)).
 
-Definition ex_id : str := Eval vm_compute in hex_encode (ex_id_bytes (gtxt "hi")).
-Definition ex_sig : str := Eval vm_compute in hex_encode (ex_id_bytes (gtxt "hi") ++ ex_pk_bytes).
+Definition ex_id : str := Eval vm_compute in hex_encode (ex_id_bytes ex_pk (gtxt "hi")).
+Definition ex_sig : str := Eval vm_compute in hex_encode (ex_id_bytes ex_pk (gtxt "hi") ++ ex_pk_bytes).
+Definition ex_id_badpk : str := Eval vm_compute in hex_encode (ex_id_bytes ex_pk_bad (gtxt "hi")).
 
-Definition ex_event_json (id content sig : str) : jv :=
-  JObj [ (k_id, JStr id); (k_pubkey, JStr ex_pk); (k_created_at, JInt 1700000000); (k_kind, JInt 1);
+Definition ex_event_json (id pk content sig : str) : jv :=
+  JObj [ (k_id, JStr id); (k_pubkey, JStr pk); (k_created_at, JInt 1700000000); (k_kind, JInt 1);
          (k_tags, JArr [JArr [JStr (gtxt "t"); JStr (gtxt "x")]]);
          (k_content, JStr content); (k_sig, JStr sig) ].
 
-(** ["EVENT", {...}] with a correct id and signature, and two altered copies:
-    another content under the same id and sig; another sig *)
-Definition ex_event_ast : jv := JArr [JStr L_EVENT; ex_event_json ex_id (gtxt "hi") ex_sig].
-Definition ex_event_ast_content_altered : jv := JArr [JStr L_EVENT; ex_event_json ex_id (gtxt "ho") ex_sig].
+(** ["EVENT", {...}] with a correct id and signature, and altered copies:
+    another content under the same id and sig; another sig; and an event whose
+    id is right but whose pubkey does not parse *)
+Definition ex_event_ast : jv := JArr [JStr L_EVENT; ex_event_json ex_id ex_pk (gtxt "hi") ex_sig].
+Definition ex_event_ast_content_altered : jv :=
+  JArr [JStr L_EVENT; ex_event_json ex_id ex_pk (gtxt "ho") ex_sig].
 Definition ex_event_ast_sig_altered : jv :=
-  JArr [JStr L_EVENT; ex_event_json ex_id (gtxt "hi") (repeat 48%N 128)].
+  JArr [JStr L_EVENT; ex_event_json ex_id ex_pk (gtxt "hi") (repeat 48%N 128)].
+Definition ex_event_ast_bad_pubkey : jv :=
+  JArr [JStr L_EVENT; ex_event_json ex_id_badpk ex_pk_bad (gtxt "hi") ex_sig].
 
 (** ["REQ", "sub1", {"kinds":[1],"#t":["x"],"limit":10}, {}] *)
 Definition ex_req_ast : jv :=
@@ -194,7 +202,7 @@ Definition ex_req_ast : jv :=
          JObj [] ].
 
 (** ["AUTH", {...}] carrying the content-altered event: AUTH events are not verified *)
-Definition ex_auth_ast : jv := JArr [JStr L_AUTH; ex_event_json ex_id (gtxt "ho") ex_sig].
+Definition ex_auth_ast : jv := JArr [JStr L_AUTH; ex_event_json ex_id ex_pk (gtxt "ho") ex_sig].
 
 Definition text_frame (payload : String.string) (j : jv) : wsframe :=
   Text (str_of_string payload) true (Some (plain_text j)).
@@ -203,14 +211,15 @@ Arguments text_frame payload%string_scope j.
 Definition ex_frames_adm : list wsframe :=
   [ text_frame "<req>" ex_req_ast;                                       (* 0 forwarded *)
     Binary (gtxt "<req>");                                               (* 1 binary *)
-    Text [255%N] false None;                                              (* 2 invalid UTF-8 *)
+    Text [255%N] false None;                                             (* 2 invalid UTF-8 *)
     Text (gtxt "{") true None;                                           (* 3 not JSON *)
     text_frame "[""HELLO""]" (JArr [JStr (gtxt "HELLO")]);               (* 4 JSON, no client message *)
     text_frame "<req kinds 70000>"
       (JArr [JStr L_REQ; JStr []; JObj [(k_kinds, JArr [JInt 70000])]]); (* 5 parses, invalid *)
     text_frame "<event>" ex_event_ast;                                   (* 6 authentic: forwarded *)
-    text_frame "<event'>" ex_event_ast_content_altered;                  (* 7 altered content *)
-    text_frame "<event''>" ex_event_ast_sig_altered;                     (* 8 altered sig *)
-    text_frame "<auth>" ex_auth_ast;                                     (* 9 AUTH: forwarded unverified *)
+    text_frame "<event content altered>" ex_event_ast_content_altered;   (* 7 altered content *)
+    text_frame "<event sig altered>" ex_event_ast_sig_altered;           (* 8 altered sig *)
+    text_frame "<event bad pubkey>" ex_event_ast_bad_pubkey;             (* 9 Verify returns an error *)
+    text_frame "<auth>" ex_auth_ast;                                     (* 10 AUTH: forwarded unverified *)
     Text (gtxt " [""CLOSE"",""sub1""]") true
-      (Some (mkCText true false (JArr [JStr L_CLOSE; JStr (gtxt "sub1")]))) ].  (* 10 leading white space *)
+      (Some (mkCText true false (JArr [JStr L_CLOSE; JStr (gtxt "sub1")]))) ].  (* 11 leading white space *)
